@@ -135,8 +135,8 @@ CLAIMED = {
     "C36": {
         "category": "other",
         "design_ref": "DESIGN.md section 6, C36",
-        "technique": "Kani full-domain harnesses on the real get_property_class of x86-64 and AArch64 (every u32 type); Route S extraction of merge_gnu_property_notes / validate_stack_section with stand-in HashMap/itertools, bounded to one input file with a symbolic shape and to TWO input files with nine fixed shapes (types concrete, every data word symbolic)",
-        "text": "CLASSIFICATION AND EXEC-STACK PREDICATE: PROVED; THE AND/OR FOLD: BOUNDED to at most TWO input files of fixed shapes - three or more inputs, symbolic shapes over two inputs and the PT_GNU_STACK computation in layout are NOT decided. CBMC proves for every 32-bit property type that x86-64 and AArch64 merge it under the class GNU ld uses (generic AND/OR ranges on every target, x86 AND/OR/OR_AND ranges, AArch64 FEATURE_1_AND) and reject types outside every range; that an executable-stack request is refused exactly without -z execstack; for a single input, the merge result, the -z x86-64-vN OR-in and the unclassified-type error; and, on the extracted merge_gnu_property_notes, for two inputs and every pair of 32-bit data words: AND / OR / OR_AND types carried by both files fold with & / | / | and are dropped when GNU ld drops them, a type carried twice by one file and not at all by the other counts as absent from an input (AND and OR_AND dropped, OR kept), different types in the two files, and two types per file in opposite orders (both folds, output sorted).",
+        "technique": "Kani full-domain harnesses on the real get_property_class of x86-64 and AArch64 (every u32 type); Route S extraction of merge_gnu_property_notes / validate_stack_section with stand-in HashMap/itertools, bounded to one input file with a symbolic shape and to TWO and THREE input files with twenty fixed shapes (every data word symbolic; in five shapes the property type is any classified 32-bit value)",
+        "text": "CLASSIFICATION AND EXEC-STACK PREDICATE: PROVED; THE AND/OR FOLD: BOUNDED to at most THREE input files of twenty fixed shapes - four or more inputs, other shapes and the PT_GNU_STACK computation in layout are NOT decided. CBMC proves for every 32-bit property type that x86-64 and AArch64 merge it under the class GNU ld uses (generic AND/OR ranges on every target, x86 AND/OR/OR_AND ranges, AArch64 FEATURE_1_AND) and reject types outside every range; that an executable-stack request is refused exactly without -z execstack; for a single input, the merge result, the -z x86-64-vN OR-in and the unclassified-type error; and, on the extracted merge_gnu_property_notes, for two and three inputs, every 32-bit data word and (in five shapes) every classified 32-bit property type: AND / OR / OR_AND types carried by every file fold with & / | / | and are dropped when GNU ld drops them, a type carried twice by one file and not at all by the other counts as absent from an input (AND and OR_AND dropped, OR kept), a type missing from the middle one of three files, two independent symbolic types in two files, and two types per file in opposite orders (both folds, output sorted).",
         "note": "The merge obligations run on a mechanical extraction with a 40-line association-list stand-in for std HashMap and itertools (listed as assumptions). One defect found and repaired (AArch64 generic ranges).",
     },
     "C24": {
